@@ -156,6 +156,49 @@ structure InvL (s : St) : Prop where
   hold : ∀ c, s.hpc = .holding c → s.inLock = some .h ∧ c = s.bit
   srv : (s.spc = .locked ∨ s.spc = .marked) → s.inLock = some .s
 
+theorem invP_init : InvP init := ⟨rfl, fun h => by cases h <;> rename_i h <;> simp [init] at h⟩
+
+theorem invL_init : InvL init :=
+  ⟨rfl, fun h => by cases h <;> rename_i h <;> simp [init] at h, fun c h => by simp [init] at h,
+   fun h => by cases h <;> rename_i h <;> simp [init] at h⟩
+
+theorem step_invP (l : Bool) (s s' : St) (a : Act) (h : InvP s) (hs : step true l s a = some s') : InvP s' := by
+  obtain ⟨bit, inLock, hpc, spc, tokens, bad⟩ := s
+  obtain ⟨hb, hbit⟩ := h
+  simp only at hb hbit
+  subst hb
+  cases a <;> cases hpc <;> cases spc <;> cases inLock <;> cases bit <;> cases l <;>
+    simp [step] at hs <;> (try subst hs) <;> (try simp at hbit) <;> constructor <;> simp
+
+theorem step_invL (s s' : St) (a : Act) (h : InvL s) (hs : step false true s a = some s') : InvL s' := by
+  obtain ⟨bit, inLock, hpc, spc, tokens, bad⟩ := s
+  obtain ⟨hb, hbit, hhold, hsrv⟩ := h
+  simp only at hb hbit hhold hsrv
+  subst hb
+  cases a <;> rcases hpc with _ | (_ | _) | _ <;> cases spc <;> rcases inLock with _ | (_ | _) <;> cases bit <;>
+    simp [step] at hs <;> (try subst hs) <;> (try simp at hbit) <;> (try simp at hsrv) <;> (try simp at hhold) <;>
+    (try (constructor <;> simp_all))
+
+theorem run_invP (l : Bool) (acts : List Act) : ∀ s, InvP s → InvP (run true l s acts) := by
+  induction acts with
+  | nil => intro s h; exact h
+  | cons a acts ih =>
+    intro s h
+    simp only [run]
+    cases hs : step true l s a with
+    | none => exact ih s h
+    | some s' => exact ih s' (step_invP l s s' a h hs)
+
+theorem run_invL (acts : List Act) : ∀ s, InvL s → InvL (run false true s acts) := by
+  induction acts with
+  | nil => intro s h; exact h
+  | cons a acts ih =>
+    intro s h
+    simp only [run]
+    cases hs : step false true s a with
+    | none => exact ih s h
+    | some s' => exact ih s' (step_invL s s' a h hs)
+
 end RdLts
 
 end XmppModel.Close
